@@ -168,7 +168,13 @@ theorem open_animated (flags r0 r1 r2 cw ch : Nat) (items : List ScanProof.Item)
       info.loopDuration = ScanProof.durSum items % 2 ^ 64 ∧
       info.isLossy = (ScanProof.anyLossy items || ScanProof.has VP8 (ScanProof.chunksOf items)) ∧
       info.loopCount = bs.getD 4 0 + 256 * bs.getD 5 0 ∧
-      info.background = [bs.getD 2 0, bs.getD 1 0, bs.getD 0 0, bs.getD 3 0] :=
+      info.background = [bs.getD 2 0, bs.getD 1 0, bs.getD 0 0, bs.getD 3 0] ∧
+      -- the chunk table after the first frame's sub-chunks were registered: every known name
+      -- that is not one of the (at most two) sub-chunk names of the first frame is still bound
+      -- to its first top-level occurrence, so `metadata_exact` applies to animated files too
+      (∀ s0 e0, ScanProof.firstRange ANMF 30 (ScanProof.chunksOf items) = some (s0, e0) →
+        ∀ k ∈ known, (∀ n ∈ ScanProof.frameSubNames (ScanProof.extendedFile flags r0 r1 r2 cw ch (ScanProof.chunksOf items)) s0 e0, n ≠ k) →
+          info.chunks.get? k = ScanProof.firstRange k 30 (ScanProof.chunksOf items)) :=
   ScanProof.open_animated flags r0 r1 r2 cw ch items hfl hr hcw hch hprod hall hsize hanim hframes hanimc hanim6 hicc hexif hxmp
 
 /-- **Whole file, simple lossless layout**: RIFF header + one `VP8L` chunk.  For EVERY size
@@ -195,5 +201,12 @@ theorem open_simple_lossy (riffSize plen t0 t1 t2 w sx h sy : Nat) (body : List 
 -- non-vacuity: a 16384 x 1 lossless header with alpha
 example : (openFile (ScanProof.simpleLossless 18 6 16384 1 true [0])).toOption.map
     (fun i => (i.width, i.height, i.hasAlpha, i.isLossy)) = some (16384, 1, true, false) := by decide +kernel
+
+-- non-vacuity of the sub-chunk hypothesis: a frame with an ALPH chunk (odd size 3, padded) and a
+-- VP8 chunk registers exactly the names ALPH and VP8 - even though the ALPH payload starts with
+-- the bytes of the name "XMP " (the regression of /repo fix a1f51e1)
+example : ScanProof.frameSubNames
+    (List.replicate 30 0 ++ (ANMF ++ [44, 0, 0, 0] ++ List.replicate 16 0 ++ ALPH ++ [5, 0, 0, 0] ++ [88, 77, 80, 32, 9, 0] ++
+      VP8 ++ [2, 0, 0, 0] ++ [1, 2])) 38 82 = [ALPH, VP8] := by decide
 
 end C08
